@@ -3,6 +3,13 @@
 use crate::roots::{supported, Cont, ARRAY_SIZES};
 use crate::world::{Family, Knobs, Step, Terminal, Wake, World};
 
+/// `--small`: keep every scenario small (no large containers, marathons, wide bursts or bulk sources); used for the
+/// Miri sample, where one execution costs about a second.
+pub static SMALL: std::sync::atomic::AtomicBool = std::sync::atomic::AtomicBool::new(false);
+pub fn small() -> bool {
+    SMALL.load(std::sync::atomic::Ordering::Relaxed)
+}
+
 #[derive(Clone, Debug)]
 pub struct LeafPlan {
     pub script: Vec<Step>,
@@ -11,7 +18,8 @@ pub struct LeafPlan {
 
 #[derive(Clone, Debug)]
 pub enum Shape {
-    Flat { fam: Family, cont: Cont, n: usize },
+    /// `plain`: the children are handles without drop glue (`PlainFut`), whose drops cannot be observed
+    Flat { fam: Family, cont: Cont, n: usize, plain: bool },
     Nested { kind: u32 },
     /// randomly generated tree over type-erased children (dynnest.rs)
     Dyn { tree: crate::dynnest::DT },
@@ -34,7 +42,7 @@ pub struct Plan {
 impl Plan {
     pub fn key(&self) -> String {
         match &self.shape {
-            Shape::Flat { fam, cont, n } => {
+            Shape::Flat { fam, cont, n, .. } => {
                 let b = match *n {
                     0 => "n=0".to_string(),
                     1 => "n=1".to_string(),
@@ -52,7 +60,13 @@ impl Plan {
     }
     pub fn describe(&self) -> String {
         match &self.shape {
-            Shape::Flat { fam, cont, n } => format!("{} over {} of {} children", fam.name(), cont.name(), n),
+            Shape::Flat { fam, cont, n, plain } => format!(
+                "{} over {} of {} children{}",
+                fam.name(),
+                cont.name(),
+                n,
+                if *plain { " (child handles without drop glue)" } else { "" }
+            ),
             Shape::Nested { kind } => format!("nested shape {}", crate::nested::name(*kind)),
             Shape::Dyn { tree } => format!("generated nested shape {}", crate::dynnest::describe(tree)),
             Shape::Group { stream, keyed, cap, ops, from_iter, burst } => format!(
@@ -110,6 +124,7 @@ pub fn profile(prop: &str) -> Profile {
         fairness: false,
         big: true,
     };
+    let base = Profile { big: base.big && !small(), ..base };
     match prop {
         "C01" => Profile { nested: true, groups: true, ..base },
         "C02" => Profile { nested: true, groups: true, co: true, allow_cancel: true, ..base },
@@ -152,6 +167,7 @@ pub fn knobs(w: &mut World, faults: bool) -> Knobs {
     let p_lock = rate("knob.lock", 6);
     let p_same_waker = rate("knob.same_waker", 10);
     let p_by_value = rate("knob.by_value", 8);
+    let p_drop_wake = rate("knob.dropwake", 4);
     let p_eager_poll = c.draw("knob.eager", 15) + 1;
     Knobs {
         p_spurious,
@@ -162,6 +178,7 @@ pub fn knobs(w: &mut World, faults: bool) -> Knobs {
         p_same_waker,
         p_by_value,
         p_eager_poll,
+        p_drop_wake,
         spurious_budget: 6,
         stale_budget: 6,
     }
@@ -242,7 +259,7 @@ fn pick_n(w: &mut World, fam: Family, cont: Cont, big: bool) -> usize {
         Cont::Vec => match w.ch.draw("n.vec.class", if big { 20 } else { 14 }) {
             0..=13 => w.ch.draw("n.vec", 7) as usize,
             14..=17 => 7 + w.ch.draw("n.vec", 18) as usize,
-            _ => [22, 23, 24, 63, 64, 65, 66, 100, 200][w.ch.draw("n.vec.big", 9) as usize],
+            _ => [22, 23, 24, 31, 32, 33, 62, 63, 64, 65, 66, 93, 100, 127, 128, 129, 200, 255, 256, 257][w.ch.draw("n.vec.big", 20) as usize],
         },
     };
     if supported(fam, cont, n) {
@@ -259,7 +276,7 @@ pub fn flat(w: &mut World, p: &Profile) -> Plan {
         let inner = if fam == Family::WaitUntilF { fut_script(w, false, p, false, 0) } else { stream_script(w, p, false) };
         let deadline = fut_script(w, false, p, false, 0);
         return Plan {
-            shape: Shape::Flat { fam, cont: Cont::Tuple, n: 2 },
+            shape: Shape::Flat { fam, cont: Cont::Tuple, n: 2, plain: false },
             leaves: vec![inner, deadline],
             cancel_at: None,
             max_yields: u32::MAX,
@@ -314,6 +331,30 @@ pub fn flat(w: &mut World, p: &Profile) -> Plan {
     }
     let mut distinguished = None;
     let mut max_yields = u32::MAX;
+    // marathon (one run in sixteen): something that only goes wrong after a few hundred polls (a narrow counter,
+    // a rotation that wraps) needs one long-lived child — a future that stays Pending for 260..330 self-woken polls,
+    // or one or two endless streams consumed for that many items
+    // (not for C02: every scenario is re-executed once per crash point, which a marathon multiplies by hundreds)
+    if !p.fairness && w.prop != "C02" && !small() && n >= 1 && n <= 12 && w.ch.draw("marathon", 16) == 15 {
+        let len = 260 + w.ch.draw("marathon.len", 70);
+        let who = w.ch.draw("marathon.pos", n as u32) as usize;
+        if fam.is_stream() {
+            leaves[who] = LeafPlan { script: Vec::new(), term: Terminal::Forever };
+            if n >= 2 && w.ch.draw("marathon.two", 2) == 1 {
+                let other = w.ch.draw("marathon.pos2", n as u32) as usize;
+                leaves[other] = LeafPlan { script: Vec::new(), term: Terminal::Forever };
+            }
+            max_yields = len;
+        } else {
+            let mut script = Vec::with_capacity(len as usize + 1);
+            for i in 0..len {
+                script.push(Step::Pend(if i % 3 == 2 { Wake::Later(0) } else { Wake::SelfNow }));
+            }
+            script.push(Step::Ready { err: false });
+            leaves[who] = LeafPlan { script, term: Terminal::Finished };
+            max_yields = len + 1_000_000; // marks the run for a larger step cap (futures never yield)
+        }
+    }
     if p.fairness && n >= 1 {
         let d = w.ch.draw("fair.pos", n as u32);
         leaves[d as usize] = LeafPlan { script: Vec::new(), term: Terminal::Forever };
@@ -329,7 +370,10 @@ pub fn flat(w: &mut World, p: &Profile) -> Plan {
         max_yields = if w.ch.draw("fair.long", 12) == 11 { 530 } else { (3 * n as u32 + 4).min(80) };
     }
     let cancel_at = if p.allow_cancel && w.ch.draw("cancel", 4) == 3 { Some(w.ch.draw("cancel.at", 6)) } else { None };
-    Plan { shape: Shape::Flat { fam, cont, n }, leaves, cancel_at, max_yields, distinguished }
+    // one future-family run in eight hands the combinator children *without drop glue* (a destructor that is gated
+    // on `mem::needs_drop::<Fut>()` behaves differently for them); their outputs are still tracked values
+    let plain = !fam.is_stream() && cont != Cont::Ext2 && n <= 12 && w.ch.draw("leaf.plain", 8) == 7;
+    Plan { shape: Shape::Flat { fam, cont, n, plain }, leaves, cancel_at, max_yields, distinguished }
 }
 
 pub fn plan(w: &mut World, prop: &str) -> Plan {
